@@ -1,0 +1,75 @@
+//go:build verif
+
+// Hooks for the runtime-monitoring harness. Compiled only with the build tag
+// "verif"; see verif_off.go for the no-op versions.
+
+package runtime
+
+import (
+	"reflect"
+	"unsafe"
+)
+
+// VerifHooks are the observation points of the monitoring harness. The hooks
+// must be set before any VM is started and never changed while one is running.
+type VerifHooks struct {
+	// Step is called at the head of the interpreter loop, once per executed
+	// instruction. n is the number of instructions this VM has executed.
+	Step func(vm uintptr, n uint64)
+	// DoneSet is called by the context watcher right after it has stored the
+	// done flag of the environment.
+	DoneSet func()
+	// Yield is called between the VM's critical sections (see the Verif*
+	// site constants). n is a per-VM counter.
+	Yield func(vm uintptr, site int, n uint64)
+	// NativeCall is called for every native function the VM is about to call.
+	NativeCall func(pkg, name string, fn reflect.Value)
+}
+
+// Yield sites.
+const (
+	VerifSiteGoBefore   = iota + 1 // startGoroutine, registers copied, before go
+	VerifSiteGoAfter               // startGoroutine, after go
+	VerifSiteSend                  // before a channel send blocks
+	VerifSiteReceive               // before a channel receive blocks
+	VerifSiteSelect                // before a select blocks
+	VerifSiteArgsGet               // callNative, after argsPool.Get
+	VerifSiteNativeCall            // callNative, before the reflect call
+	VerifSiteArgsPut               // callNative, before argsPool.Put
+)
+
+var verifHooks VerifHooks
+
+// SetVerifHooks installs the hooks.
+func SetVerifHooks(h VerifHooks) { verifHooks = h }
+
+type verifState struct {
+	steps  uint64
+	yields uint64
+}
+
+func verifStep(vm *VM) {
+	if h := verifHooks.Step; h != nil {
+		vm.verif.steps++
+		h(uintptr(unsafe.Pointer(vm)), vm.verif.steps)
+	}
+}
+
+func verifDoneSet() {
+	if h := verifHooks.DoneSet; h != nil {
+		h()
+	}
+}
+
+func verifYield(vm *VM, site int) {
+	if h := verifHooks.Yield; h != nil {
+		vm.verif.yields++
+		h(uintptr(unsafe.Pointer(vm)), site, vm.verif.yields)
+	}
+}
+
+func verifNativeCall(fn *NativeFunction) {
+	if h := verifHooks.NativeCall; h != nil {
+		h(fn.pkg, fn.name, fn.value)
+	}
+}
